@@ -440,7 +440,14 @@ pub fn odd_command_cases() -> Vec<(&'static str, Opts, Vec<Vec<&'static str>>)> 
     let b = Opts::new(P::Seq(vec![P::Alt(vec![P::Map(jobs.bx(), "j".into()), P::Map(sync("sync").fallback(Val::s("none")).bx(), "c".into())])]));
     // a flag-looking command name (pacman style `-S`)
     let c = Opts::new(P::Seq(vec![P::Switch(Names::both('q', "quiet")), P::Alt(vec![sync("-S"), sync("--sync-all")])]));
+    // `.last()` / `.many()` / `.optional()` applied to a choice of commands
+    let d = Opts::new(P::Seq(vec![P::Switch(Names::both('q', "quiet")), P::Last(P::Alt(vec![sync("sync"), sync("other")]).bx())]));
+    let e = Opts::new(P::Seq(vec![P::Switch(Names::both('q', "quiet")), P::Alt(vec![sync("sync"), sync("other")]).opt()]));
+    let f = Opts::new(P::Seq(vec![P::Switch(Names::both('q', "quiet")), P::Collect(P::Alt(vec![sync("sync"), sync("other")]).bx(), false)]));
     vec![
+        ("last-over-a-choice-of-commands", d, vec![vec!["sync", "--help"], vec!["sync", "--dry", "-h"], vec!["-q", "sync", "--help"], vec!["sync", "--bogus", "--help"]]),
+        ("optional-over-a-choice-of-commands", e, vec![vec!["sync", "--help"], vec!["sync", "--dry", "-h"], vec!["-q", "sync", "--help"], vec!["sync", "-j", "x", "--help"]]),
+        ("collect-over-a-choice-of-commands", f, vec![vec!["sync", "--help"], vec!["-q", "sync", "--dry", "--help"]]),
         ("flag-looking-command-name", c, vec![vec!["-S", "--help"], vec!["-S", "--dry", "--help"], vec!["-S", "--bogus", "-h"], vec!["--sync-all", "--help"], vec!["-q", "-S", "-h"]]),
         ("command-in-optional-member-of-an-alternative-group", a, vec![vec!["sync", "--help"], vec!["sync", "-h"], vec!["-v", "sync", "--help"], vec!["sync", "--dry", "--help"], vec!["sync", "-j", "x", "--help"], vec!["sync", "--bogus", "--help"]]),
         ("command-under-fallback-beside-a-valued-alternative", b, vec![vec!["sync", "--help"], vec!["sync", "--help", "--jobs", "many"], vec!["sync", "--jobs", "many", "--help"], vec!["sync", "--help", "--jobs"], vec!["sync", "--dry", "-h"]]),
